@@ -546,11 +546,11 @@ pub(crate) fn tokenize_file(ctx: &mut StaticsContext, file_id: FileId) -> Vec<To
                     lexer.index += next;
                 } else if let Some('*') = lexer.peek_char(1) {
                     // multi-line comment
+                    // the comment ends at the first `*` that is immediately followed by `/`
                     let mut next = 2;
                     while let Some(c) = lexer.peek_char(next)
                         && let Some(c2) = lexer.peek_char(next + 1)
-                        && c != '*'
-                        && c2 != '/'
+                        && !(c == '*' && c2 == '/')
                     {
                         next += 1;
                     }
